@@ -632,7 +632,8 @@ class TimedPoolRunner(core.Hooks):
         elif got:
             self.fail('C10.a', f'callbacks {got} ran outside an availability check', 'outside_scan')
         self.in_scan = False
-        lw = len(self.rm._waiting_requests)
+        wr = getattr(self.rm, '_waiting_requests', None)
+        lw = len(wr) if wr is not None else len(self.waiting)
         if lw != len(self.waiting):
             self.fail('C10.a', f'manager keeps {lw} waiting requests, model has {len(self.waiting)}', 'waiting_len')
         if self.step_no > 20000:
